@@ -28,7 +28,7 @@ from .C14 import same_scalar, judge_corr, to_model, Layout, hint_global, magnitu
 
 ID = 'C15'
 LEVEL = 'exploration'
-DECIDING = ['repeat_calls_compared', 'fits_with_shared_function_object', 'held_results_checked', 'scale_invariance_pairs', 'variant_calls', 'timeslices_judged', 'entries_compared', 'root_substitutions', 'plateau_fits', 'plateau_averages',
+DECIDING = ['rejections_judged', 'zero_ratio_timeslices_judged', 'repeat_calls_compared', 'fits_with_shared_function_object', 'held_results_checked', 'scale_invariance_pairs', 'variant_calls', 'timeslices_judged', 'entries_compared', 'root_substitutions', 'plateau_fits', 'plateau_averages',
             'patterns_enumerated', 'tap:Corr.deriv', 'tap:Corr.second_deriv', 'tap:Corr.m_eff', 'tap:Corr.plateau']
 RULE = ('cases: single-valued real correlators, Obs on 1-2 replicas (contiguous / strided / gapped lists); (enum) T=4..8 with EVERY set of '
         'undefined timeslices that leaves at least one timeslice defined (2^T - 1 masks per T, 491 in all; exhaustive for this sub-space), '
@@ -102,6 +102,8 @@ def plan(tier):
     for k in range(2):
         p += [('sample:%d' % k, 130 * m), ('roots:%d' % k, 80 * m), ('plateau:%d' % k, 100 * m)]
     p.append(('onebyone', 52 * m))
+    p.append(('reject', 52 * m))
+    p.append(('zeros', 60 * m))
     return p
 
 
@@ -131,7 +133,7 @@ def data_profile(rng, T, sign, kind=None):
 SCALES = [1e-8, 1e-4, 1e4, 1e8]
 
 
-def build(rng, T, mask, sign, kind=None, rel=0.02, prange=None, padding_ok=True, ctx=None, decorate=True, one_by_one=False):
+def build(rng, T, mask, sign, kind=None, rel=0.02, prange=None, padding_ok=True, ctx=None, decorate=True, one_by_one=False, zeros=None):
     """decorate (hardening): the whole correlator scaled by 1e-8 ... 1e8, a tag, a stored plateau range, the reweighted flag, the same Obs
     object on neighbouring timeslices, content handed over as ndarray; none of these may influence a formula or the definedness"""
     lay = Layout(rng, nmin=10, nmax=14)
@@ -143,6 +145,14 @@ def build(rng, T, mask, sign, kind=None, rel=0.02, prange=None, padding_ok=True,
         if ctx is not None:
             ctx.count('scaled_correlators')
     entries = [lay.obs(rng, vals[t], rel) if mask[t] else None for t in range(T)]
+    if decorate and zeros is not False and (zeros or rng.random() < 0.06):
+        # central value exactly 0.0, fluctuations not (an observable minus its mean): checklist 16
+        for t in range(T):
+            if entries[t] is not None and rng.random() < 0.25:
+                entries[t] = entries[t] - entries[t].value
+        kind += ' with zero-valued timeslices'
+        if ctx is not None:
+            ctx.count('correlators_with_zero_valued_entries')
     if decorate and rng.random() < 0.08:
         # blocks of two timeslices holding the same object
         for t in range(1, T, 2):
@@ -223,10 +233,21 @@ REPEAT = [False]   # set per case: every variant is called a second time
 HELD = []      # (label, result, digest at the time it was returned): re-checked after all later calls of the case (results must not change)
 
 
-def judge_formula(ctx, A, c, mask, label, call, exp_flat, hints):
+def judge_formula(ctx, A, c, mask, label, call, exp_flat, hints, zero_ratio=None):
+    """zero_ratio: timeslices at which the formula is the logarithm of an exactly vanishing ratio (no real value: expected undefined)"""
     ctx.count('variant_calls')
     d0 = any_digest(A)
     res, exc = attempt(call)
+    if exc is None and is_corr(res) and zero_ratio:
+        got = refc.flat(to_model(res)) if res.T == len(c) else []
+        exp_flat = list(exp_flat)
+        for t in zero_ratio:
+            ctx.ev()
+            ctx.count('zero_ratio_timeslices_judged')
+            if t < len(got) and got[t] is not None and is_obs(got[t]) and got[t].value == -math.inf:
+                # the logarithm of C(t)/C(t') = 0 is returned as a mass of minus infinity instead of an undefined timeslice
+                ctx.violation('%s:zero-ratio-returns-minus-infinity' % label, {'t': t, 'T': len(c), 'pattern': ''.join('x' if m else '.' for m in mask)})
+                exp_flat[t] = got[t]
     if exc is None and is_corr(res):
         HELD.append((label, res, any_digest(res)))
         if REPEAT[0]:
@@ -366,7 +387,13 @@ def all_variants(ctx, rng, A, entries, mask, sign, roots=True):
         ctx.cell('m_eff.' + v, cls, sign)
         call = (lambda v=v: A.m_eff(v)) if v != 'log' or rng.random() < 0.5 else (lambda: A.m_eff())
         exp, why = refc.m_eff_direct(c, v, FN)
-        n += judge_formula(ctx, A, c, mask, 'm_eff.' + v, call, exp, None)
+        zr = []
+        if v in ('log', 'logsym'):
+            for t in range(T):
+                num = t if v == 'log' else t - 1
+                if why[t] == 'no-real-solution' and c[num].value == 0.0:
+                    zr.append(t)
+        n += judge_formula(ctx, A, c, mask, 'm_eff.' + v, call, exp, None, zero_ratio=zr)
     if roots:
         for v in MEFF_ROOT:
             ctx.cell('m_eff.' + v, cls, sign)
@@ -406,7 +433,7 @@ def scale_invariance(ctx, rng, A, mask):
             continue
         if v in MEFF_DIRECT:
             for t, (x, y) in enumerate(zip(refc.flat(to_model(ra)), refc.flat(to_model(rb)))):
-                if x is not None:
+                if x is not None and math.isfinite(x.value):
                     same_scalar(ctx, y, x, 'scale:m_eff.%s' % v, 't=%d scale %g' % (t, sc), 1.0, 1e-2, rtol=1e-9)   # masses are O(1), their fluctuations O(relative noise)
 
 
@@ -428,12 +455,18 @@ def judge_plateau(ctx, A, c, mask, first, last, method, how, auto_gamma, np_rang
         kw['method'] = method
     if auto_gamma:
         kw['auto_gamma'] = True
-    if direct_fit:
+    if direct_fit and how == 'none':
+        # Corr.fit without a range: the stored prange, else every timeslice (first / last are what the caller expects to be used)
+        const = CONST_A
+        call = lambda: A.fit(const, silent=True)[0]
+    elif direct_fit:
         # ONE function object for all direct fits of the process (other data, other ranges), and a second object with equal code
         # (checklist 11: nothing may be remembered per function object)
         const = CONST_A if first % 3 else CONST_B
         ctx.count('fits_with_shared_function_object')
         call = (lambda: A.fit(const, rng_list, silent=True)[0]) if how != 'kw' else (lambda: A.fit(const, fitrange=rng_list, silent=True)[0])
+    elif how == 'none':
+        raise ValueError('plateau needs a range')
     elif how == 'prange':
         call = lambda: A.plateau(**kw)
     else:
@@ -486,7 +519,9 @@ def judge_plateau(ctx, A, c, mask, first, last, method, how, auto_gamma, np_rang
         exp = refc.plateau_constant_fit(c, w, first, last)
         # Levenberg-Marquardt stops when chi^2 changes by less than ftol = 1e-8 relative: (a - a*)^2 sum(w) <~ 1e-8 chi^2_min
         chi2 = sum(w[t] * (c[t].value - exp.value) ** 2 for t in ts)
-        tol = math.sqrt(1e-7 * chi2 / sum(w[t] for t in ts)) + 1e-9 * abs(exp.value)
+        # ... plus the resolution of an iterative minimiser in units of the error of the fitted constant, 1 / sqrt(sum w)
+        # (a plateau over timeslices whose central values are exactly 0 comes back as 1e-318, not 0.0)
+        tol = math.sqrt(1e-7 * chi2 / sum(w[t] for t in ts)) + 1e-9 * abs(exp.value) + 1e-9 / math.sqrt(sum(w[t] for t in ts))
         if abs(exp.value) > 100 and abs(res.value) < 1e-3 * abs(exp.value) and min(e for e in errs if e is not None) > 1e3:
             # the minimiser stays orders of magnitude closer to its start value 0.1 than to the minimum: with errors that are large in
             # absolute terms the finite-difference Jacobian of the residuals (step ~1e-9 at the start value) is lost in rounding.
@@ -530,6 +565,62 @@ def plateaus(ctx, rng, A, entries, mask, nfit=2, navg=6):
 
 
 # ------------------------------------------------------------------------------------------
+def must_reject(ctx, name, fn, types, keep):
+    ctx.count('rejections_judged')
+    ctx.count('rejection:' + name)
+    d0 = any_digest(keep)
+    ctx.ev()
+    try:
+        r = fn()
+    except types:
+        pass
+    except Exception as e:
+        ctx.violation('rejection:%s:raises-%s' % (name, type(e).__name__), {'message': str(e)[:200], 'expected': [t.__name__ for t in types]})
+    else:
+        ctx.violation('rejection:%s:accepted' % name, {'returned': repr(r)[:200]})
+    ctx.ev()
+    if any_digest(keep) != d0:
+        ctx.violation('rejection:%s:correlator-changed' % name, {})
+
+
+def do_rejections(ctx, rng, idx):
+    """checklist 19: the documented rejections of deriv / second_deriv / m_eff / fit / plateau are provoked and must raise,
+    leaving the correlator (data, prange, tag) as it was"""
+    T = int(rng.integers(4, 13))
+    mask = [True] * T
+    if idx % 2:
+        mask[int(rng.integers(0, T))] = False
+    A, entries, dk = build(rng, T, mask, ['positive', 'changing'][idx % 2], ctx=ctx)
+    A.gamma_method()
+    lay = Layout(rng)
+    mats = []
+    for t in range(T):
+        a = np.empty((2, 2), dtype=object)
+        for i in range(2):
+            for j in range(2):
+                a[i, j] = lay.obs(rng, 1.0 + i + j)
+        mats.append(a)
+    G = PE.Corr(mats)
+    VE, TE, EX = (ValueError,), (TypeError,), (Exception,)
+    must_reject(ctx, 'deriv(N>1)', lambda: G.deriv(), VE, G)
+    must_reject(ctx, 'deriv(unknown variant)', lambda: A.deriv('central'), VE, A)
+    must_reject(ctx, 'second_deriv(N>1)', lambda: G.second_deriv(), VE, G)
+    must_reject(ctx, 'second_deriv(unknown variant)', lambda: A.second_deriv('forward'), VE, A)
+    must_reject(ctx, 'm_eff(N>1)', lambda: G.m_eff(), EX, G)
+    must_reject(ctx, 'm_eff(unknown variant)', lambda: A.m_eff('tanh'), VE, A)
+    must_reject(ctx, 'fit(N>1)', lambda: G.fit(CONST_A, [0, 1], silent=True), VE, G)
+    must_reject(ctx, 'fit(range given as tuple)', lambda: A.fit(CONST_A, (0, 2), silent=True), TE, A)
+    must_reject(ctx, 'fit(range with one entry)', lambda: A.fit(CONST_A, [1], silent=True), VE, A)
+    must_reject(ctx, 'fit(range with three entries)', lambda: A.fit(CONST_A, [0, 1, 2], silent=True), VE, A)
+    A.prange = None
+    must_reject(ctx, 'plateau(no range, no prange)', lambda: A.plateau(), EX, A)
+    must_reject(ctx, 'plateau(empty list, no prange)', lambda: A.plateau([]), EX, A)
+    must_reject(ctx, 'plateau(N>1)', lambda: G.plateau([0, 1]), VE, G)
+    must_reject(ctx, 'plateau(unknown method)', lambda: A.plateau([0, T - 1], method='median'), VE, A)
+    ctx.cell('rejections', 'T=%d' % T)
+    ctx.nontrivial.add(digest('reject', any_digest(A)))
+
+
 def run_case(ctx, kind, idx, rng):
     full_kind = kind
     REPEAT[0] = (idx % 5 == 0)
@@ -579,6 +670,17 @@ def run_case(ctx, kind, idx, rng):
             n += plateaus(ctx, rng, A, entries, mask, nfit=1, navg=1)
         finally:
             ONE_BY_ONE[0] = False
+    elif kind == 'reject':
+        return do_rejections(ctx, rng, idx)
+    elif kind == 'zeros':
+        T = int(rng.integers(4, 17))
+        sign = ['positive', 'changing'][idx % 2]
+        mask = [bool(rng.random() > 0.15) for _ in range(T)]
+        if not any(mask):
+            mask[0] = True
+        A, entries, dk = build(rng, T, mask, sign, ctx=ctx, zeros=True)
+        n = all_variants(ctx, rng, A, entries, mask, sign)
+        n += plateaus(ctx, rng, A, entries, mask, nfit=1, navg=2)
     elif kind.startswith('roots'):
         idx = 2 * idx + int(kind[-1])
         T = int(rng.integers(4, 25))
@@ -606,6 +708,9 @@ def run_case(ctx, kind, idx, rng):
         b = int(rng.integers(a, T)) if rng.random() > 0.3 else a      # first == last: a single timeslice
         if rng.random() < 0.1:
             a, b = 0, T - 1
+        elif rng.random() < 0.12:
+            a, b = 0, 0                      # a valid range whose entries are falsy (checklist 16)
+            ctx.count('plateau_range_0_0')
         how = ['range', 'prange', 'kw'][idx % 3]
         A, entries, dk = build(rng, T, mask, sign, prange=[a, b] if (how == 'prange' and idx % 2) else None, ctx=ctx)
         if A.prange is not None and not (how == 'prange' and idx % 2):
@@ -648,6 +753,18 @@ def run_case(ctx, kind, idx, rng):
             if auto:
                 A.gamma_method()
             n += judge_plateau(ctx, A, c, mask, a, b, 'fit', how, False, np_range=npr, direct_fit=True)
+        # Corr.fit without any range: uses the stored prange if there is one, all timeslices otherwise
+        if A.prange:
+            fa, fb = A.prange
+        else:
+            fa, fb = 0, T - 1
+        if auto:
+            A.gamma_method()
+        elif any(e is not None and e.dvalue == 0.0 for e in c):
+            A.gamma_method()
+        ctx.cell('fit.const', 'no range', 'prange' if A.prange else 'all timeslices')
+        ctx.count('fits_without_range')
+        n += judge_plateau(ctx, A, c, mask, fa, fb, 'fit', 'none', False, direct_fit=True)
         dk = 'plateau'
     else:
         raise ValueError(kind)
